@@ -23,7 +23,8 @@ for d in sorted(glob.glob(os.path.join(ROOT, 'seeded', 'S*'))):
         out = '**not detected** ' + r[1] + ' — ' + meta['detected_by']
     else:
         out = 'patch no longer applies to HEAD — ' + meta['detected_by']
-    rows.append(f"| {sid.split('-')[0]} `{sid.split('-',2)[2]}` | {meta['property']} | {meta['what_it_needs_to_manifest']} | {out} |")
+    esc = lambda t: t.replace('|', '\\|')
+    rows.append(f"| {sid.split('-')[0]} `{sid.split('-',2)[2]}` | {meta['property']} | {esc(meta['what_it_needs_to_manifest'])} | {esc(out)} |")
 part1 = open(os.path.join(ROOT, 'docs', 'part1.md')).read().replace('@@SEED_TABLE@@', '\n'.join(rows))
 part2 = open(os.path.join(ROOT, 'docs', 'part2_round0.md')).read()
 open(os.path.join(ROOT, 'DESIGN.md'), 'w').write(part1.rstrip() + "\n\n===========================================================================\n\n" + part2)
